@@ -112,8 +112,9 @@ static bool remove_empty_directory(const std::string& path)
     if (ret == 0)
         return true;
 
-    // POSIX allows for either ENOTEMPTY or EEXIST.
-    if (errno != ENOTEMPTY && errno != EEXIST)
+    // POSIX allows for either ENOTEMPTY or EEXIST. When the directory above does not let us remove entries the
+    // answer is EACCES (or EPERM) whether or not this directory is empty: it stays, and that is not a failure.
+    if (errno != ENOTEMPTY && errno != EEXIST && errno != EACCES && errno != EPERM)
         throw std::system_error(errno, std::generic_category(), "Unable to remove directory " + path);
 
     return false;
